@@ -89,11 +89,19 @@ def corpus_requests(thorough):
     import c09
     import c17
     reqs = list(c01.build(thorough)[4])
-    for d, desc, forms in c17.rewrites():
+    for d, desc, forms in c17.all_spellings():
         reqs += [{"derive": d, "item": f} for f in forms]
     for named, fields in c09.layouts(3 if thorough else 2):
         for container in ("struct", "enum"):
             reqs.append({"derive": "Error", "item": c09.item_text(named, fields, container, lambda f, i: ("my::Backtrace" if f["ty"] == "bt" else "E%d" % i))})
+    # textual twins: the same item with its generic parameter list removed, so that `T`, `U`, `N`, 'a in its field types now
+    # name concrete things - any state kept between expansions that is keyed by token text confuses the two
+    twins = []
+    for q in reqs:
+        t = strip_generics(q["item"])
+        if t is not None:
+            twins.append({"derive": q["derive"], "item": t})
+    reqs += twins
     seen, out = set(), []
     for q in reqs:
         k = (q["derive"], q["item"])
@@ -101,6 +109,27 @@ def corpus_requests(thorough):
             seen.add(k)
             out.append(q)
     return out
+
+
+def strip_generics(item):
+    """`... struct S<'a, T: Tr = u8, const N: usize>(..)` -> `... struct S(..)` (None when the item declares no parameters)."""
+    m = re.search(r"\b(struct|enum|union)\s+(r#)?\w+\s*<", item)
+    if not m:
+        return None
+    i = m.end() - 1
+    depth, k = 0, i
+    while k < len(item):
+        c = item[k]
+        if c == "<":
+            depth += 1
+        elif c == ">" and item[k - 1] != "-":
+            depth -= 1
+            if depth == 0:
+                break
+        k += 1
+    if depth != 0:
+        return None
+    return item[:i] + item[k + 1:]
 
 
 def svc_order(exe, reqs, order, serial, threads, pad):
